@@ -141,6 +141,7 @@ class Lib:
         T[functools.partial] = lambda I, a, k, n: LibFn(
             lambda I2, a2, k2, n2, f=a[0], pa=list(a[1:]), pk=dict(k): I2.call(f, pa + list(a2), {**pk, **k2}, n2), "functools.partial")
         T[itertools.product] = self.c_product
+        T[itertools.groupby] = self.it_groupby
         T[itertools.chain] = lambda I, a, k, n: tuple_iter([x for it in a for x in I.iterate(it, n)])
         T[itertools.chain.from_iterable] = lambda I, a, k, n: tuple_iter([x for it in I.iterate(a[0], n) for x in I.iterate(it, n)])
         T[itertools.accumulate] = self.c_accumulate
@@ -503,6 +504,25 @@ class Lib:
         nneg = (ta - tb - ts - 1) / (-ts)
         n = z3.If(ts > 0, npos, nneg)
         return SV(z3.If(n > 0, n, 0))
+
+    def it_groupby(self, I, a, k, n):
+        """itertools.groupby(iterable, key): consecutive runs of equal keys; every group is its own iterator (materialised
+        here, so that listing the pairs first does not empty the groups as the lazy original would - the analysed code
+        only ever consumes each group while it is current, which is the case this model covers)"""
+        items = I.iterate(a[0], n)
+        keyf = k.get("key", a[1] if len(a) > 1 else None)
+        out = []
+        cur_key, cur = _MISSING, None
+        for x in items:
+            kx = x if keyf is None else I.call(keyf, [x], {}, n)
+            if isinstance(kx, (SV, Obj, SStr)):
+                raise Unsupported("itertools.groupby with symbolic keys")
+            if cur_key is _MISSING or kx != cur_key:
+                cur = []
+                out.append((kx, cur))
+                cur_key = kx
+            cur.append(x)
+        return tuple_iter([(kk, tuple_iter(g)) for kk, g in out])
 
     def power(self, I, a, b, node):
         if isinstance(a, Obj):
